@@ -92,7 +92,7 @@ def classify(ctx, pid, cases, results, what):
         return 0
     groups = {}
     for c, r, why in bad:
-        key = (c["kind"], c["dist"].get("backend"), tuple((r or [99])[:1] + (r or [99])[2:5]))
+        key = (c["kind"], c["dist"].get("backend"), c["dist"].get("mode"), tuple((r or [99])[:1] + (r or [99])[2:5]))
         groups.setdefault(key, []).append((c, r, why))
     reported = 0
     for key, items in sorted(groups.items(), key=lambda kv: -len(kv[1])):
